@@ -9,7 +9,7 @@ import itertools
 from vlib import core
 
 ALPHA = [97, 233, 9824, 10, 13]          # a é ♠ \n \r
-EXTRA = [0x1F600, 32, 0x2028, 98]         # 4-byte char, space, LS, b
+EXTRA = [0x1F600, 32, 0x2028, 98, 88]     # 4-byte char, space, LS, b, X (= lexing error in the lexer-level queries)
 
 
 def chunkings(rng, text, k):
@@ -26,7 +26,7 @@ def chunkings(rng, text, k):
 
 
 def line_of(chunks):
-    return " ; ".join(" ".join(str(c) for c in ch) for ch in chunks)
+    return "T " + " ; ".join(" ".join(str(c) for c in ch) for ch in chunks)
 
 
 def run(ctx):
@@ -56,6 +56,49 @@ def run(ctx):
     impl = core.run_lines([exe], lines)
     model = core.run_lines([mexe], lines)
     ndiff = 0
+    # the lexer-level queries (NonStreamingLexer::line_col / span_lines_str, LexParseError::pp)
+    # are derived from the model's cache-level answers: line_col(s,e) = (L s, L e),
+    # span_lines_str(s,e) = text[st..en] with (st,en) = S s e, pp = "Lexing error at line l column c."
+    impl_full = impl
+    impl = []
+    for c, a, b in zip(cases, impl_full, model):
+        parts = a.split(" | ")
+        base = [x for x in parts if not x[:3] in ("LC ", "SL ", "PP ")]
+        lexq = [x for x in parts if x[:3] in ("LC ", "SL ", "PP ")]
+        impl.append(" | ".join(base))
+        text = [x for ch in c for x in ch]
+        tb = "".join(map(chr, text)).encode()
+        L, S = {}, {}
+        for x in b.split(" | "):
+            f = x.split()
+            if f[0] == "L":
+                L[int(f[1])] = (f[2], f[3])
+            elif f[0] == "S" and len(f) == 5:
+                S[(int(f[1]), int(f[2]))] = (int(f[3]), int(f[4]))
+        bad = []
+        for x in lexq:
+            f = x.split()
+            if f[0] == "LC":
+                s_, e_ = int(f[1]), int(f[2])
+                exp = [L.get(s_, ("?", "?"))[0], L.get(s_, ("?", "?"))[1], L.get(e_, ("?", "?"))[0], L.get(e_, ("?", "?"))[1]]
+                if f[3:] != exp:
+                    bad.append((x, "expected " + " ".join(exp)))
+            elif f[0] == "SL":
+                s_, e_ = int(f[1]), int(f[2])
+                if (s_, e_) in S:
+                    st, en = S[(s_, e_)]
+                    if f[3:] != ([tb[st:en].hex()] if en > st else []):
+                        bad.append((x, "expected " + tb[st:en].hex()))
+            elif f[0] == "PP":
+                off = int(f[1])
+                exp = ("Lexing error at line %s column %s." % L.get(off, ("?", "?"))).encode().hex()
+                if f[2:] != [exp]:
+                    bad.append((x, "expected " + bytes.fromhex(exp).decode()))
+        ctx.coverage["lexer_queries"] = ctx.coverage.get("lexer_queries", 0) + len(lexq)
+        if bad:
+            ndiff += 1
+            ctx.violation({"chunks": c, "text": "".join(map(chr, text)), "lexer_level_differences": bad[:5],
+                           "authority": "C19_line_col_spec, C19_span_lines_spec applied through NonStreamingLexer::line_col/span_lines_str/LexParseError::pp"})
     for c, l, a, b in zip(cases, lines, impl, model):
         text = [x for ch in c for x in ch]
         nontriv = (10 in text) and any(x > 127 or x == 13 for x in text)
